@@ -27,7 +27,7 @@ func (e *Env) BuildFreeRunner(c *Corpus) (string, error) {
 		return bin, nil
 	}
 	// a bounded, evenly spread subset: small concurrent cases (their unpruned trace sets stay enumerable)
-	var cand []*Item
+	var cand, large []*Item
 	for _, it := range c.Items {
 		g := 0
 		for _, f := range it.Funcs {
@@ -35,6 +35,9 @@ func (e *Env) BuildFreeRunner(c *Corpus) (string, error) {
 		}
 		if it.Runnable && g >= 1 && g <= 2 && len(it.Decl.Provs) <= 5 {
 			cand = append(cand, it)
+		}
+		if it.Runnable && it.Decl.Large {
+			large = append(large, it)
 		}
 	}
 	limit := 240
@@ -48,6 +51,14 @@ func (e *Env) BuildFreeRunner(c *Corpus) (string, error) {
 	}
 	for i := 0; i < len(cand); i += step {
 		include[cand[i].Pkg] = true
+	}
+	// a spread of the large shapes (up to a dozen providers, up to ten goroutines) as well
+	lstep := 1
+	if len(large) > 16 {
+		lstep = len(large) / 16
+	}
+	for i := 0; i < len(large); i += lstep {
+		include[large[i].Pkg] = true
 	}
 	var main strings.Builder
 	main.WriteString("package main\n\nimport (\n\t\"verif/conform\"\n\n")
@@ -203,7 +214,9 @@ func (e *Env) Conform(c *Corpus, pkgs []string, families string, thorough bool, 
 	jw := bufio.NewWriter(jf)
 	for _, ts := range sets {
 		res.TraceSets++
-		if ts.Capped {
+		if ts.Capped || (ts.POR && ts.Scenario != "free") {
+			// (a set with one representative per trace only supports forcing COMPLETE orders: after a cancellation or
+			// a failure the real run is merely observed, and its continuation may be another trace's representative)
 			res.SkippedCap++
 			continue
 		}
